@@ -121,8 +121,10 @@ def _std_kind(sch, std, f, enum_idx, msg_idx):
     return k
 
 
-def gen_schema(ctx, rng, ek, rich=True):
-    """A random schema for options on element kind ek.  rich=False: scalars, paths and repeated fields only."""
+def gen_schema(ctx, rng, ek, rich=True, tdense=False):
+    """A random schema for options on element kind ek.  rich=False: scalars, paths and repeated fields only.
+    tdense=True: every third field / extension (message-typed ones included, which is what makes the steps of a name
+    path and the fields of nested literals meet a target-type restriction) declares `targets`."""
     std = std_schema(ctx)
     tt, optmsg, stdfields = ELEMENTS[ek]
     sch = Schema()
@@ -207,7 +209,7 @@ def gen_schema(ctx, rng, ek, rich=True):
             if in_p3 and not rep and oneof is None and not (isinstance(k, tuple) and k[0] == "msg"):
                 implicit = rng.chance(2, 3)      # else declared `optional`
             targets = []
-            if rich and rng.chance(1, 10):
+            if rich and (rng.chance(1, 3) if tdense else rng.chance(1, 10)):
                 targets = sorted(set(rng.choice(list(TARGET_NAMES)) for _ in range(rng.range(1, 2))))
                 if rng.chance(1, 2) and tt not in targets:
                     targets.append(tt)
@@ -221,8 +223,10 @@ def gen_schema(ctx, rng, ek, rich=True):
         k = rand_kind(False)
         rep = rng.chance(1, 4)
         targets = []
-        if rich and rng.chance(1, 8):
+        if rich and (rng.chance(1, 3) if tdense else rng.chance(1, 8)):
             targets = sorted(set(rng.choice(list(TARGET_NAMES)) for _ in range(rng.range(1, 2))))
+            if tdense and rng.chance(1, 2) and tt not in targets:
+                targets.append(tt)
         sch.exts.append({"name": "x%d" % (j + 1), "extendee": 0, "field": Field("x%d" % (j + 1), num, k, rep, None, False, targets)})
         num += 1
     # at least one message-typed and one scalar extension
@@ -234,7 +238,11 @@ def gen_schema(ctx, rng, ek, rich=True):
             if sch.msgs[mi]["extendable"] and sch.msgs[mi]["where"] == "main":
                 for j in range(rng.range(1, 2)):
                     n = "y%d_%d" % (mi, j + 1)
-                    sch.exts.append({"name": n, "extendee": mi, "field": Field(n, 100 + j, rand_kind(False), rng.chance(1, 5), None, False, [])})
+                    targets = []
+                    if tdense and rng.chance(1, 3):
+                        targets = [rng.choice(list(TARGET_NAMES))] + ([tt] if rng.chance(1, 2) else [])
+                        targets = sorted(set(targets))
+                    sch.exts.append({"name": n, "extendee": mi, "field": Field(n, 100 + j, rand_kind(False), rng.chance(1, 5), None, False, targets)})
     return sch
 
 
@@ -325,6 +333,111 @@ def tiny_schema(ctx, where="p3"):
                      "fields": [Field("a", 1, kind_a, implicit=imp), Field("s", 2, "string", implicit=imp), Field("sub", 3, ("msg", 1))]})
     sch.exts.append({"name": "foo", "extendee": 0, "field": Field("foo", 50001, ("msg", 1))})
     return sch
+
+
+def targets_schema(ctx, ek):
+    """The smallest schema in which every step of an option name and every spelling of a value (name path, message
+    literal, nested literal, list) can meet a field whose `targets` exclude (names with `no`) or include (names with
+    `ok`) the element kind ek:
+      message T { int32 a; T ok [tt, other]; T no [no]; int32 sno [no]; repeated T rno [no]; repeated int32 rsno [no];
+                  T sub; int32 sok [tt]; oneof { T ono [no]; int32 oa; } extensions 100 to 199; }
+      extend <options of ek> { T xo; T xno [no]; T xok [tt]; int32 xsno [no]; repeated T xrno [no]; }
+      extend T { int32 yno [no]; T ymno [no]; int32 yok [tt]; T ym; }"""
+    std = std_schema(ctx)
+    tt, optmsg, _ = ELEMENTS[ek]
+    no, other = tt % 9 + 1, (tt + 1) % 9 + 1
+    sch = Schema()
+    sch.ek = ek
+    sch.msgs.append({"name": optmsg, "fields": [], "where": "std", "extendable": False})
+    for f in (std["messages"][optmsg] or []):
+        if f["kind"] in ("bool",) and not f["repeated"]:
+            sch.msgs[0]["fields"].append(Field(f["name"], f["number"], f["kind"], targets=f["targets"] or []))
+    T = ("msg", 1)
+    sch.msgs.append({"name": "T", "where": "main", "extendable": True, "fields": [
+        Field("a", 1, "int32"), Field("ok", 2, T, targets=[tt, other]), Field("no", 3, T, targets=[no]),
+        Field("sno", 4, "int32", targets=[no]), Field("rno", 5, T, rep=True, targets=[no]),
+        Field("rsno", 6, "int32", rep=True, targets=[no]), Field("sub", 7, T), Field("sok", 8, "int32", targets=[tt]),
+        Field("ono", 9, T, oneof=0, targets=[no]), Field("oa", 10, "int32", oneof=0)]})
+    for i, (n, k, rep, tg) in enumerate([("xo", T, False, []), ("xno", T, False, [no]), ("xok", T, False, [tt]),
+                                         ("xsno", "int32", False, [no]), ("xrno", T, True, [no])]):
+        sch.exts.append({"name": n, "extendee": 0, "field": Field(n, 50001 + i, k, rep, None, False, tg)})
+    for i, (n, k, tg) in enumerate([("yno", "int32", [no]), ("ymno", T, [no]), ("yok", "int32", [tt]), ("ym", T, [])]):
+        sch.exts.append({"name": n, "extendee": 1, "field": Field(n, 100 + i, k, False, None, False, tg)})
+    return sch
+
+
+def targets_corpus():
+    """statement lists for targets_schema: a target-type restriction met at the first, a middle and the last part of a
+    name, on simple and extension parts, alone or together with another error of the same step (repeated, not a message,
+    no such field), below a sub-message that is / is not there yet, and at every depth of a message literal or list."""
+    A = LM(("a", I(1)))
+    one = [
+        # name paths: the restricted field is the last part
+        (X("(xo)", "sno"), I(1)), (X("(xo)", "sok"), I(1)), (X("(xo)", "no"), A), (X("(xo)", "no"), LM()), (X("(xo)", "ok"), A),
+        (X("(xo)", "rno"), A), (X("(xo)", "rsno"), I(1)), (X("(xo)", "ono"), A), (X("(xsno)"), I(1)), (X("(xno)"), A),
+        (X("(xno)"), LM()), (X("(xok)"), A), (X("(xrno)"), A), (X("(xo)", "(yno)"), I(1)), (X("(xo)", "(yok)"), I(1)),
+        (X("(xo)", "(ymno)"), A), (X("(xo)", "sub", "sno"), I(1)), (X("(xo)", "sub", "sub", "no"), A),
+        # ... a part in the middle
+        (X("(xo)", "no", "a"), I(1)), (X("(xo)", "ok", "a"), I(1)), (X("(xo)", "sub", "no", "a"), I(1)),
+        (X("(xo)", "no", "sub", "a"), I(1)), (X("(xo)", "ok", "no", "a"), I(1)), (X("(xo)", "no", "ok", "a"), I(1)),
+        (X("(xo)", "ono", "a"), I(1)), (X("(xo)", "(ymno)", "a"), I(1)), (X("(xo)", "(ym)", "no", "a"), I(1)),
+        (X("(xo)", "sub", "(ymno)", "sub", "a"), I(1)), (X("(xo)", "no", "(yok)"), I(1)), (X("(xo)", "no", "no", "no", "a"), I(1)),
+        (X("(xo)", "sub", "sub", "sub", "no", "a"), I(1)),
+        # ... the first part
+        (X("(xno)", "a"), I(1)), (X("(xok)", "a"), I(1)), (X("(xno)", "sub", "a"), I(1)), (X("(xok)", "no", "a"), I(1)),
+        (X("(xno)", "ok", "a"), I(1)),
+        # ... together with another error of the same or of a later step
+        (X("(xo)", "rno", "a"), I(1)), (X("(xo)", "sno", "a"), I(1)), (X("(xo)", "no", "nosuch"), I(1)),
+        (X("(xo)", "no", "a"), ("str", [120])), (X("(xrno)", "a"), I(1)), (X("(xsno)", "a"), I(1)), (X("(xno)", "(nosuch)"), I(1)),
+        (X("(xo)", "no", "(xo)"), I(1)), (X("(xo)", "no"), I(1)), (X("(xo)", "sno"), ("str", [120])),
+        # message literals: depth 1, 2, 3; lists; extension names
+        (X("(xo)"), LM(("sno", I(1)))), (X("(xo)"), LM(("sok", I(1)))), (X("(xo)"), LM(("no", A))), (X("(xo)"), LM(("no", LM()))),
+        (X("(xo)"), LM(("ok", A))), (X("(xo)"), LM(("ok", LM(("no", A))))), (X("(xo)"), LM(("ok", LM(("sno", I(1)))))),
+        (X("(xo)"), LM(("sub", LM(("sub", LM(("no", LM()))))))), (X("(xo)"), LM(("sub", LM(("sub", LM(("sno", I(1)))))))),
+        (X("(xo)"), LM(("rno", ("list", [A])))), (X("(xo)"), LM(("rno", A))), (X("(xo)"), LM(("rno", ("list", [])))),
+        (X("(xo)"), LM(("rsno", ("list", [I(1), I(2)])))), (X("(xo)"), LM(("rsno", I(1)))), (X("(xo)"), LM(("ono", A))),
+        (X("(xo)"), LM(("[yno]", I(1)))), (X("(xo)"), LM(("[yok]", I(1)))), (X("(xo)"), LM(("[ymno]", A))),
+        (X("(xo)"), LM(("[ym]", LM(("no", A))))), (X("(xo)"), LM(("sub", LM(("[yno]", I(1)))))),
+        (X("(xo)"), LM(("a", I(1)), ("sno", I(2)))), (X("(xo)"), LM(("sno", ("str", [120])))), (X("(xo)"), LM(("no", I(1)))),
+        (X("(xno)"), LM(("sno", I(1)))), (X("(xok)"), LM(("no", A))), (X("(xrno)"), LM(("sno", I(1)))),
+        # name path ending in a literal
+        (X("(xo)", "sub"), LM(("no", A))), (X("(xo)", "ok"), LM(("sub", LM(("sno", I(1)))))), (X("(xo)", "no"), LM(("sno", I(1)))),
+        (X("(xo)", "sub", "sub"), LM(("rno", ("list", [A, A])))), (X("(xo)", "(ym)"), LM(("[ymno]", A))),
+    ]
+    out = [[st] for st in one]
+    out += [
+        # the sub-message is there already (interpretField continues inside it) / is created by the statement
+        [(X("(xo)", "ok", "a"), I(1)), (X("(xo)", "ok", "no", "a"), I(2))],
+        [(X("(xo)", "sub", "a"), I(1)), (X("(xo)", "sub", "no", "a"), I(2))],
+        [(X("(xo)", "sub", "a"), I(1)), (X("(xo)", "sub", "sno"), I(2))],
+        [(X("(xo)"), LM(("ok", A))), (X("(xo)", "ok", "no", "a"), I(2))],
+        [(X("(xo)", "a"), I(1)), (X("(xo)", "no", "a"), I(2))],
+        # a rejected statement first: only the lenient runs reach the second one
+        [(X("(xo)", "nosuch"), I(1)), (X("(xo)", "no", "a"), I(2)), (X("(xo)", "a"), I(3))],
+        [(X("(xo)", "no", "a"), I(1)), (X("(xo)", "a"), I(2)), (X("(xo)", "sub", "no", "a"), I(3))],
+        [(X("(xo)", "oa"), I(1)), (X("(xo)", "ono", "a"), I(2))],
+        [(X("deprecated"), ("ident", "true")), (X("(xo)", "no", "a"), I(2))],
+    ]
+    return out
+
+
+def respellings(st):
+    """the same assignment written with the name / value boundary elsewhere: (p1..pk) = { pk+1 { .. pn: v } } for every
+    k, and a literal with a single field folded into the name.  (Not always equivalent - repeated fields - and not
+    meant to be: each spelling is compared with the specification on its own.)"""
+    parts, v = st
+    out = []
+    for k in range(1, len(parts)):
+        vv = v
+        for p in reversed(parts[k:]):
+            vv = ("msg", [(p, vv)])
+        out.append((list(parts[:k]), vv))
+    p2, v2 = list(parts), v
+    while v2[0] == "msg" and len(v2[1]) == 1:
+        nm, fv = v2[1][0]
+        p2, v2 = p2 + [nm], fv
+        out.append((list(p2), v2))
+    return out
 
 
 def X(*parts):
@@ -1000,12 +1113,12 @@ def coq_eval_multi(name, header, case_terms, chks, shard_size=300, timeout=1500,
 
 
 # ------------------------------------------------------------------ one generated case, end to end
-def make_case(rng, ctx, ek, nst, rich=True, lits=True, wrong=12, fixed=None):
+def make_case(rng, ctx, ek, nst, rich=True, lits=True, wrong=12, fixed=None, tdense=False):
     """-> dict(sch, stmts, files, key, input)"""
     if fixed is not None:
         sch, stmts = fixed
     else:
-        sch = gen_schema(ctx, rng, ek, rich=rich)
+        sch = gen_schema(ctx, rng, ek, rich=rich, tdense=tdense) if tdense else gen_schema(ctx, rng, ek, rich=rich)
         stmts = [rand_stmt(rng, sch, wrong=wrong, lits=lits) for _ in range(nst)]
     files, key = render_file(sch, stmts)
     return {"sch": sch, "stmts": stmts, "files": files, "key": key,
